@@ -294,3 +294,70 @@ def structprobe_findings(recs):
             out.append({"kind": "struct-field-lookup", "type_cql": r["type_cql"], "dest": r.get("dest"), "bytes": r.get("hex", ""), "observed": r["class"], "detail": r.get("detail", "")[:300],
                         "what": "%s, %s (bytes %s): violated: %s; observed %s %s" % (r["type_cql"], r.get("dest"), r.get("hex", "")[:120], r["what"], r["class"], r.get("detail", "")[:200])})
     return out, n
+
+
+def source_findings(cases):
+    """Encode must not modify its source and must be a function of it: the Go value re-abstracted (and re-printed) after Encode is what it was built
+    from, a second Encode of the same Go value gives the same outcome and bytes, the decoded value equals the source as it is afterwards.
+    Returns (findings, evaluations)."""
+    out, n = [], 0
+    for r in cases:
+        if "src_intact" not in r or r.get("enc_class") == "panic":
+            continue
+        n += 1
+        if not r["src_intact"]:
+            out.append(dict(slim(r), kind="source-mutated", source_after=r.get("src_after_coq", "")[:600],
+                            what="%s value %s (as %s, v%d): Encode modified its source: afterwards the Go value denotes %s" % (
+                                r["type_cql"], r["val_coq"][:300], r["rep"], r["ver"], r.get("src_after_coq", "(same abstract value, other Go value)")[:300])))
+        elif not r.get("enc2_same", True):
+            out.append(dict(slim(r), kind="encode-not-repeatable", second=r.get("enc2_hex", "")[:600],
+                            what="%s value %s (as %s, v%d): a second Encode of the same Go value gave %s, the first %s %s" % (
+                                r["type_cql"], r["val_coq"][:300], r["rep"], r["ver"], r.get("enc2_hex", "")[:200], r["enc_class"], r.get("enc_hex", "")[:200])))
+        elif r.get("enc_class") in ("ok", "null") and r.get("dec_class") == "ok" and r.get("rt_equal") and not r.get("rt_equal_src", True):
+            out.append(dict(slim(r), kind="source-mutated", what="%s value %s (as %s, v%d): the decoded value differs from the source as it is after Encode" % (
+                r["type_cql"], r["val_coq"][:300], r["rep"], r["ver"])))
+    return out, n
+
+
+def v2size_expected(r):
+    """the bytes the collection format prescribes for a harness v2size record (native_protocol_v2.spec 6.x / v5 5.x: a [short] (v2) or [int] (v3+) count,
+    then every element / key / value as [short bytes] (v2) or [bytes]); None when v2 cannot express it (an element longer than 65535 bytes)."""
+    import hashlib
+    w = 2 if r["ver"] < 3 else 4
+    big, short = b"a" * r["size"], b"k"
+    elems = {"list-element": [short, big, short], "set-element": [big], "map-key": [big, short], "map-value": [short, big]}[r["position"]]
+    count = 1 if r["position"] != "list-element" else 3
+    if w == 2 and any(len(e) > 65535 for e in elems):
+        return None
+    b = count.to_bytes(w, "big") + b"".join(len(e).to_bytes(w, "big") + e for e in elems)
+    return len(b), hashlib.sha256(b).hexdigest()
+
+
+def v2size_findings(recs, round_trip):
+    """the four [short]-prefixed positions of the v2 collection format at 65535 / 65536 / 70000 bytes, judged on the implementation: accepted with exactly the
+    prescribed bytes (digest) or refused where v2 cannot express the length; round_trip: what was accepted decodes back to the value (C11).
+    Returns (findings, evaluations, coq cases)."""
+    out, n, cases = [], 0, []
+    cls = {"ok": "COk", "err": "CErr", "panic": "CPanic"}
+    for r in recs:
+        if r.get("kind") != "v2size":
+            continue
+        n += 1
+        exp = v2size_expected(r)
+        where = "%s v%d, %s of %d bytes (all other elements 1 byte)" % (r["type_cql"], r["ver"], r["position"], r["size"])
+        f = {"type_cql": r["type_cql"], "ver": r["ver"], "position": r["position"], "size": r["size"], "val_coq": r["val_coq"], "enc_class": r["enc_class"], "enc_len": r["enc_len"]}
+        if round_trip:
+            if r["enc_class"] == "ok" and not r["rt_equal"]:
+                out.append(dict(f, kind="untyped-destination-differs", what="%s: encoded (%d bytes) but does not decode back to the value: %s" % (where, r["enc_len"], r.get("err", "")[:200])))
+            elif r["enc_class"] == "panic" or (r["enc_class"] == "err" and exp is not None):
+                out.append(dict(f, kind="encode-refused", what="%s: Encode %s: %s" % (where, r["enc_class"], r.get("err", "")[:200])))
+        else:
+            if exp is None and r["enc_class"] != "err":
+                out.append(dict(f, kind="bytes-differ-from-specification", what="%s: the v2 format cannot express this length ([short] prefix) yet Encode returned %s, %d bytes" % (where, r["enc_class"], r["enc_len"])))
+            elif exp is not None and (r["enc_class"] != "ok" or (r["enc_len"], r["enc_sha256"]) != exp):
+                out.append(dict(f, kind="bytes-differ-from-specification", what="%s: expected %d bytes sha256 %s, Encode gave %s %d bytes sha256 %s" % (
+                    where, exp[0], exp[1][:16], r["enc_class"], r["enc_len"], r["enc_sha256"][:16])))
+        args = "%d %s %s %s %d" % (r["ver"], r["type_coq"], r["val_coq"], cls.get(r["enc_class"], "CPanic"), r["enc_len"])
+        cases.append((r["id"] + ".model", "enc_shape_agrees " + args))
+        cases.append((r["id"] + ".spec", "spec_shape_agrees " + args))
+    return out, n, cases
